@@ -6,11 +6,13 @@ pub mod c03;
 pub mod c04;
 pub mod c05;
 pub mod c07;
+pub mod c11;
 pub mod c12;
 pub mod c13;
 pub mod c14;
 pub mod c15;
 pub mod c18;
+pub mod c19;
 pub mod common;
 pub mod gcsearch;
 pub mod refcheck;
@@ -35,9 +37,11 @@ pub fn registry() -> Vec<PropertyDef> {
         PropertyDef { id: "C04", run: c04::run, replay: c04::replay, level: "exploration" },
         PropertyDef { id: "C05", run: c05::run, replay: c05::replay, level: "exploration" },
         PropertyDef { id: "C07", run: c07::run, replay: c07::replay, level: "fault_enumeration" },
+        PropertyDef { id: "C11", run: c11::run, replay: c11::replay, level: "fault_enumeration" },
         PropertyDef { id: "C12", run: c12::run, replay: c12::replay, level: "exploration" },
         PropertyDef { id: "C14", run: c14::run, replay: c14::replay, level: "exploration" },
         PropertyDef { id: "C15", run: c15::run, replay: c15::replay, level: "exploration" },
+        PropertyDef { id: "C19", run: c19::run, replay: c19::replay, level: "fault_enumeration" },
         PropertyDef { id: "C18", run: c18::run, replay: c18::replay, level: "exploration" },
         PropertyDef { id: "C13", run: c13::run, replay: c13::replay, level: "fault_enumeration" },
     ]
@@ -138,7 +142,8 @@ pub fn check(id: &str, tier: Tier, seed: u64) -> i32 {
                 Err(e) => verdict.harness_errors.push(e),
             }
         } else {
-            still = true;
+            // no canary file: the entry is confirmed by a violation of this very run
+            still = found.iter().any(|v| signature_matches(&k.signature, &v.signature));
         }
         if still {
             println!("KNOWN-FINDING: property={} {} [{}]", id, k.what, k.id);
